@@ -151,6 +151,8 @@ def gen(prop, stream, tier, avoid):
         elif k == "split":
             op["dir"] = rng.randrange(2)
             op["t"] = rng.randint(1, 31) / 32.0
+            # float noise on the mapped parameter of an un-normalised configuration (0.3 * 3 is 0.8999999999999999): the same query
+            op["noise"] = rng.pick([0, 0, 0, 1, -1, 2, -2])
         elif k in ("tangent", "normal", "hodograph", "find_ctrlpts"):
             op["t"] = t
         elif k == "tessellate":
@@ -484,6 +486,8 @@ def execute_workload(script, cfg):
                     continue
                 d = op["dir"] % nd
                 u = aL[d][0] + aL[d][1] * op["t"]
+                if not cfg["normalize"] and op.get("noise") and u != 0.0:
+                    u = u * (1.0 + op["noise"] * 2.0 ** -52)
                 if nd == 1:
                     pieces = g.operations.split_curve(obj, u)
                 elif d == 0:
